@@ -1,0 +1,113 @@
+//go:build verif
+
+package store
+
+import (
+	"context"
+	"fmt"
+	"os"
+	"path/filepath"
+	"time"
+
+	"github.com/opencontainers/go-digest"
+)
+
+// VerifGC runs one repository collection synchronously.
+func VerifGC(s Store, repoStr string) error {
+	repo, err := s.RepoGet(context.Background(), repoStr)
+	if err != nil {
+		return err
+	}
+	repo.Done()
+	return repo.gc()
+}
+
+// VerifGCPass runs one store-wide pass with explicit tick times.
+func VerifGCPass(s Store, cur, prev time.Time) error {
+	switch st := s.(type) {
+	case *mem:
+		return st.gc(cur, prev)
+	case *dir:
+		return st.gc(cur, prev)
+	}
+	return fmt.Errorf("unknown store type %T", s)
+}
+
+// VerifSetBlobTime sets the age of a blob (Chtimes for dir, metadata for mem).
+func VerifSetBlobTime(s Store, repoStr string, d digest.Digest, t time.Time) error {
+	repo, err := s.RepoGet(context.Background(), repoStr)
+	if err != nil {
+		return err
+	}
+	defer repo.Done()
+	switch r := repo.(type) {
+	case *memRepo:
+		r.mu.Lock()
+		defer r.mu.Unlock()
+		b, ok := r.blobs[d]
+		if !ok || b == nil {
+			return fmt.Errorf("blob %s is not held in memory", d)
+		}
+		b.m.mod = t
+		return nil
+	case *dirRepo:
+		return os.Chtimes(filepath.Join(r.path, blobsDir, d.Algorithm().String(), d.Encoded()), t, t)
+	}
+	return fmt.Errorf("unknown repo type %T", repo)
+}
+
+// VerifUploadPrune runs the age (byAge) or count based prune of the repository's upload sessions synchronously.
+func VerifUploadPrune(s Store, repoStr string, byAge bool) error {
+	repo, err := s.RepoGet(context.Background(), repoStr)
+	if err != nil {
+		return err
+	}
+	defer repo.Done()
+	switch r := repo.(type) {
+	case *memRepo:
+		if byAge {
+			r.uploads.VerifPruneAge()
+		} else {
+			r.uploads.VerifPruneCount()
+		}
+	case *dirRepo:
+		if byAge {
+			r.uploads.VerifPruneAge()
+		} else {
+			r.uploads.VerifPruneCount()
+		}
+	}
+	return nil
+}
+
+// VerifUploadSetUsed overrides the last-used time of an upload session.
+func VerifUploadSetUsed(s Store, repoStr, sessionID string, t time.Time) bool {
+	repo, err := s.RepoGet(context.Background(), repoStr)
+	if err != nil {
+		return false
+	}
+	defer repo.Done()
+	switch r := repo.(type) {
+	case *memRepo:
+		return r.uploads.VerifSetUsed(sessionID, t)
+	case *dirRepo:
+		return r.uploads.VerifSetUsed(sessionID, t)
+	}
+	return false
+}
+
+// VerifUploadCount returns the number of open upload sessions of a repository.
+func VerifUploadCount(s Store, repoStr string) int {
+	repo, err := s.RepoGet(context.Background(), repoStr)
+	if err != nil {
+		return -1
+	}
+	defer repo.Done()
+	switch r := repo.(type) {
+	case *memRepo:
+		return r.uploads.VerifLen()
+	case *dirRepo:
+		return r.uploads.VerifLen()
+	}
+	return -1
+}
